@@ -24,6 +24,13 @@ func init() {
 		Orphan(c, "R-ORPHAN")
 		FmtErr(c, "R-FMTERR")
 		SortUsed(c, "R-SORTUSED", c.Pkgs)
+		var disc []*packages.Package
+		for _, p := range c.Pkgs {
+			if strings.HasSuffix(p.PkgPath, "/genfp/generator") || strings.HasSuffix(p.PkgPath, "/metafp") {
+				disc = append(disc, p)
+			}
+		}
+		TagExact(c, "R-TAGEXACT", disc)
 	})
 }
 
